@@ -24,7 +24,7 @@ def f32s(bits):
 PARTIAL_GAPS = False  # True: a missing frame is marked by NaN in its FIRST component only (that is the library's rule), the others hold numbers
 STRAY_LINKS = 0       # > 0: Data3D blocks of a link-less format are given that many links all the same
 LAYOUT = None
-LAYOUTS = ("F", "strided", "reversed", "bigendian", "readonly", "offset", "masked")
+LAYOUTS = ("F", "strided", "reversed", "bigendian", "readonly", "offset", "masked", "plain", "column")
 
 
 def lay(a):
@@ -48,6 +48,10 @@ def lay(a):
         return b
     if LAYOUT == "masked":                          # only for the samples of a track: see lay_track
         return a
+    if LAYOUT == "plain":                           # record arrays (the marker links) as a plain Python list of tuples
+        return [tuple(int(x) for x in r) for r in a] if a.dtype.names else a
+    if LAYOUT == "column":                          # only for one-dimensional samples: see lay_track
+        return a
     if LAYOUT == "offset":                          # unaligned start inside a byte buffer
         raw = bytearray(1 + a.nbytes)
         raw[1:] = np.ascontiguousarray(a).tobytes()
@@ -55,12 +59,14 @@ def lay(a):
     raise KeyError(LAYOUT)
 
 
-def lay_track(a):
+def lay_track(a, column_ok=False):
     """the samples of a track / signal / platform.  Layout "masked": a numpy masked array — the missing frames are its mask,
     with numbers underneath, not NaN (what np.ma.masked_invalid / masked_where / a masked reader hand back)"""
     if LAYOUT == "masked" and isinstance(a, np.ndarray) and a.dtype.kind == "f":
         m = np.isnan(a)
         return np.ma.masked_array(np.where(m, a.dtype.type(5.5), a), mask=m)
+    if LAYOUT == "column" and column_ok and isinstance(a, np.ndarray) and a.ndim == 1:
+        return a.reshape(-1, 1)                     # one channel cut out of a samples x channels matrix:  mat[:, [k]]
     return lay(a)
 
 
@@ -338,7 +344,7 @@ def build(kind, fmt, v, **kw):
             for i, fr in enumerate(frames):
                 if fr != []:
                     u[i] = fr
-            e.addSignal(EMGTrack(txt(label), lay_track(a)), channel=ch)
+            e.addSignal(EMGTrack(txt(label), lay_track(a, column_ok=True)), channel=ch)
         return e
     if kind == "FT":
         from basictdf.tdfForce3D import ForceTorque3D, ForceTorque3DBlockFormat, ForceTorqueTrack
